@@ -8,11 +8,17 @@ PRELUDE = '@use "sass:math";\n'
 STEP = {
     "read": ".r { v: percentage(0.03); w: math.floor(math.$pi); }\n",   # global fn (user-shadowable) + module variable
     "write": "math.$pi: 4;\n",                                             # must fail: built-ins are immutable
+    "writeg": "math.$pi: 4 !global;\n",
+    "writed": "math.$e: 4 !default;\n",
+    "usewith": '@use "sass:string" with ($x: 4);\n',
+    "failcall": "@function fdeep($n) { @if $n == 0 { @error \"deep\"; } @return fdeep($n - 1); }\n.f { v: fdeep(60); }\n",
+    "deepcall": "@function gdeep($n) { @if $n == 0 { @return 0; } @return 1 + gdeep($n - 1); }\n.d { v: gdeep(60); }\n",
     "def": "@function percentage($n) { @return 7%; }\n",                  # user definition named like a built-in
     "pure": ".p { v: 1; }\n",
     "uid": ".u { v: unique-id(); }\n",
 }
-PROGS = {"rd": ["read"], "wr": ["read", "write", "read"], "df": ["def", "read"], "pu": ["pure", "read"],
+PROGS = {"rd": ["read"], "wr": ["read", "write", "read"], "wg": ["writeg", "read"], "wd": ["writed", "read"], "uw": ["usewith", "read"],
+         "fc": ["failcall"], "dp": ["deepcall", "read"], "df": ["def", "read"], "pu": ["pure", "read"],
          "uid": ["uid"], "uid2": ["uid", "uid"]}
 
 
@@ -30,9 +36,11 @@ def model_obs(r):
         # outputs before the failing write are lost with the error: the model's [.., -1]
         return "err"
     out = []
-    for m in re.finditer(r"\.(r|p) \{\n((?:  .*\n)*)\}", r.get("out") or ""):
+    for m in re.finditer(r"\.(r|p|d) \{\n((?:  .*\n)*)\}", r.get("out") or ""):
         if m.group(1) == "p":
             out.append(1)
+        elif m.group(1) == "d":
+            out.append(2 if "v: 60;" in m.group(2) else -98)
         else:
             v = re.search(r"v: (\d+)%;\n\s*w: (\d+);", m.group(2))
             out.append(int(v.group(1)) if v and v.group(2) == "3" else -99)
@@ -147,10 +155,20 @@ class C05(ProcessEngine):
                 events.append({"ev": "Fresh", "case": k, "digest": digest(r)})
         keys = [k for k in pool if k not in dead]
         nh = 40 if ctx.tier == "quick" else 400
+        # failing inputs (model programs and corpus inputs that return an error) for the stress histories
+        failing = [k for k in keys if (memo.get(k) or memo2.get(k) or {}).get("status") == "err"]
         for hi in range(nh):
             nthreads = ctx.rng.choice([1, 2, 4, 8, 16])
             total = ctx.rng.randint(1, 50)
             threads = [[] for _ in range(nthreads)]
+            if hi % 5 == 0 and failing:
+                # stress: the same failing compilation many times on one thread, then valid work on that thread
+                f = "fc" if hi % 10 == 0 else ctx.rng.choice(failing)
+                nthreads = 1 if hi % 10 == 0 else 2
+                threads = [[dict(pool[f], id=f) for _ in range(ctx.rng.randint(20, 48))] + [dict(pool[k], id=k) for k in ("dp", "rd", "pu")]]
+                if nthreads == 2:
+                    threads.append([dict(pool[k], id=k) for k in ("rd", "dp")])
+                total = 0
             for j in range(total):
                 k = ctx.rng.choice(keys)
                 threads[ctx.rng.randrange(nthreads)].append(dict(pool[k], id=k))
